@@ -269,8 +269,8 @@ UNITS += [
 ]
 
 SUSP_LOOP = """
-__CPROVER_assigns(vx_it, g_susp_total, g_susp_victim)
-__CPROVER_loop_invariant(vx_it <= self->npools && g_waits == 1 && g_susp_total >= 0 && g_susp_total <= 3 && g_susp_victim == (vx_it > g_vp ? 1 : 0))
+__CPROVER_assigns(vx_it, g_susp_total, g_susp_victim, g_resumes)
+__CPROVER_loop_invariant(vx_it <= self->npools && g_waits == 1 && g_susp_total >= 0 && g_susp_total <= 3 && g_susp_victim == (vx_it > g_vp ? 1 : 0) && g_resumes == 0)
 __CPROVER_decreases(self->npools - vx_it)
 """
 UNITS += [
@@ -336,4 +336,68 @@ UNITS += [
          doc="T: refused without side effect from a pika task / without a runtime; else exactly one rt->resume()"),
 ]
 
-META = {"trusted_base": [], "assumptions": [], "not_decided": []}
+META = {
+    "explanation": (
+        "C05 is decided as a thin SLICE. (1) The global activity count: increment / decrement / get are single atomic steps "
+        "(+1 / -1 without wrap / one read); create_thread of local_priority_queue_scheduler, local_queue_scheduler and "
+        "shared_priority_queue_scheduler increments exactly once on every path BEFORE the queue-level create_thread (the first "
+        "point where the task can become visible); their destroy_thread decrements exactly once AFTER the queue-level destroy. "
+        "Each call keeps its own ledger (count contribution >= tasks it has made visible) at every step, which summed over all "
+        "threads is count >= live, so 'count == 0 => no live task' is stable under every step. (2) thread_manager::wait returns "
+        "only on a predicate evaluation that read count <= (caller is a pika task ? 1 : 0); thread_manager::suspend drains first. "
+        "(3) pika::stop / finalize / wait / suspend / resume refuse by exception with no side effect where documented; stop takes "
+        "ownership once and performs wait -> stop -> rethrow_exception in that order, destroys the runtime once, returns wait()'s "
+        "value."),
+    "trusted_base": [
+        "specs/C05/activity.c atomic_fetch_add / atomic_fetch_sub / atomic_load: std::atomic<size_t> operations are single "
+        "indivisible steps; interfere(): before each of them other threads may set the count to any value >= the contributions "
+        "the caller itself holds (VX_ASSUME(v >= g_held && v <= 10^9): rely = the other threads keep their own ledgers; the "
+        "upper bound is a ghost bound against wrap-around noise)",
+        "specs/C05/activity.c q_create / q_destroy: T-stubs for thread_queue::create_thread / destroy_thread (and "
+        "queue_holder_thread's); q_create may publish the task, report an error or throw; the points where `live` changes are "
+        "defined to be these calls",
+        "specs/C05/activity.c select_active_pu (VX_ASSUME(r < num_queues_): postcondition proved in C19 state.select_active_pu), "
+        "atomic_fetch_inc (round-robin counter under interference), vx_lookup / worker_next / fast_mod / local_thread_number / "
+        "thrd_queue (placement helpers of shared_priority_queue_scheduler: arbitrary values, they do not touch the count)",
+        "specs/C05/wait.c get_global_activity_count: returns an arbitrary value per call (the counter is owned by the environment "
+        "while waiting; unit count.get relates it to the counter); get_self_ptr is constant during one call; vx_yield = yield_k",
+        "specs/C05/spec.py rule YieldWhile (copied from specs/C19): util::yield_while(pred, name) unfolded to the loop it is "
+        "(`for (k = 0; pred(); ++k) yield_k(k)`), lambda body inlined",
+        "specs/C05/entry.c rt_* / tm_wait stubs (runtime::finalize/wait/stop/rethrow_exception/suspend/resume, "
+        "thread_manager::wait: T-stubs with order assertions; only rethrow_exception is modelled as throwing), uptr_* "
+        "(std::unique_ptr<runtime>: construction = taking ownership, destructor deletes a non-null pointee on every scope exit, "
+        "lowered by the Guard rule), vx_throw_pika (PIKA_THROW_EXCEPTION leaves the function with the given error code)",
+        "enumerator values (thread_priority, thread_schedule_hint_mode, pika::error) are read from /repo by spec.py on every run",
+    ],
+    "assumptions": [
+        "A-CLOSED for the count: besides the three scheduler create_thread/destroy_thread pairs lifted here, the count is "
+        "changed only by the CUDA event and MPI polling modules (async_cuda/src/cuda_event_callback.cpp, "
+        "async_mpi/src/mpi_polling.cpp; textual census), which add non-task activity: they can only make wait() wait longer "
+        "for the safety direction count >= live tasks",
+        "ledger summation: count = sum of all calls' count contributions (+ in-flight CUDA/MPI operations), live = sum of all "
+        "calls' visible tasks; per-call obligation contribution >= visible at every step is machine checked, the summation over "
+        "the interleaved history is the history-induction paper step",
+        "a task is 'live' from its queue-level create_thread until its queue-level destroy_thread (a task being torn down "
+        "between termination and destroy_thread is still counted, which is the safe direction)",
+        "class invariants num_queues_ != 0 (and 0 < num_high_priority_queues_ <= num_queues_) as asserted by the constructors",
+    ],
+    "not_decided": [
+        "pika::wait()'s postcondition 'every task submitted before the call, and every task those spawn, has finished': needs "
+        "(a) count >= live over the whole interleaved history (only the per-step ledger is proved), (b) that every submitted "
+        "task was counted before wait's read (submission from non-pika threads concurrently with wait is a race the property "
+        "explicitly includes), (c) a child is counted before its parent is destroyed -- whole-history statements",
+        "that wait()/stop() ever return (liveness); in particular a create_thread whose queue-level creation fails or which "
+        "refuses an invalid hint mode leaves the count incremented for ever (reach markers *_count_stays): safe, but wait() then "
+        "never returns -- observed, not an obligation of this slice",
+        "pika::stop() 'returns only after pika::finalize() was called' (runtime::wait's hand-shake on a condition variable), "
+        "that the runtime is drained inside runtime::wait/stop, pool stop_locked's hand-shake and the joins of OS threads",
+        "restart: that after stop() the runtime can be started again with a different configuration and each incarnation runs "
+        "its own work completely (global state reset across init_start_impl / runtime destructor: not contract-shaped)",
+        "that no task body executes while suspended and that all queued work runs after resume() (scheduling loop + OS thread "
+        "states over time; the per-worker state machine is C19); only 'thread_manager::suspend drains before suspending any "
+        "pool' is proved",
+        "runtime::wait / runtime::stop / runtime::finalize / runtime::suspend / runtime::resume bodies (runtime.cpp) and "
+        "init_start_impl / start",
+        "memory-order adequacy of the acquire/release/relaxed accesses to the count (A-SC)",
+    ],
+}
